@@ -73,6 +73,16 @@ pub struct RecEnv { pub inner: StaticEnvironment, pub log: RefCell<Vec<String>> 
 impl RecEnv {
     pub fn new(inner: StaticEnvironment) -> Self { RecEnv { inner, log: RefCell::new(vec![]) } }
     pub fn trace(&self) -> String { let l = self.log.borrow(); if l.is_empty() { "-".into() } else { l.join(" , ") } }
+    /// C06's observable: every event is a call of a function registered pure for that argument count
+    pub fn all_pure_calls(&self) -> bool {
+        self.log.borrow().iter().all(|ev| {
+            let mut t = ev.split(' ');
+            match (t.next(), t.next().and_then(unhex), t.next().and_then(|k| k.parse::<usize>().ok())) {
+                (Some("cl"), Some(name), Some(k)) => matches!(self.inner.function_exists(&name, k), FunctionResult::Exists { pure: true }),
+                _ => false,
+            }
+        })
+    }
     pub fn clear(&self) { self.log.borrow_mut().clear(); }
 }
 impl Environment for RecEnv {
